@@ -635,32 +635,41 @@ func c15InactiveSince(c *core.Ctx, pkg *packages.Package) {
 		return
 	}
 	c.Analysed(fn.String())
-	var rets []ast.Expr
-	for _, b := range fn.Graph().Blocks {
+	g := fn.Graph()
+	var rets []*ast.ReturnStmt
+	var locs []an.Loc
+	for _, b := range g.Blocks {
 		if r := an.ReturnOf(b); r != nil && len(r.Results) == 1 {
-			rets = append(rets, r.Results[0])
+			rets = append(rets, r)
+			locs = append(locs, g.Locate(r))
 		}
 	}
-	ok := len(rets) == 1
-	detail := ""
-	if ok {
-		detail = fn.Canon(rets[0])
-		inactive, strict := false, false
-		for _, cj := range conjuncts(rets[0]) {
-			switch v := fn.Canon(cj); v {
-			case "recv.IsInactive()", "(recv.GetState() == PartitionInactive)", "(recv.State == PartitionInactive)":
-				inactive = true
-			default:
-				if be, isBin := an.Unparen(cj).(*ast.BinaryExpr); isBin {
-					x, y := fn.Canon(be.X), fn.Canon(be.Y)
-					ts := func(s string) bool { return s == "recv.GetStateTimestamp()" || s == "recv.StateTimestamp" }
-					if (be.Op == token.LSS && ts(x) && y == "p0.Unix()") || (be.Op == token.GTR && ts(y) && x == "p0.Unix()") {
-						strict = true
-					}
-				}
+	// truth table over (inactive, StateTimestamp vs since.Unix()): every row must reach exactly one return whose
+	// value is decided by those two facts alone
+	atoms := []an.Atom{{Name: "inactive", Values: []string{"T", "F"}}, {Name: "ts", Values: []string{"lt", "eq", "gt"}}}
+	var bad []string
+	rows := an.Rows(atoms)
+	for _, row := range rows {
+		bd := &an.Binder{Fn: fn, Row: row,
+			Bool: map[string]string{"recv.IsInactive()": "inactive", "(recv.GetState() == PartitionInactive)": "inactive", "(recv.State == PartitionInactive)": "inactive"},
+			Cmp:  map[string]string{"recv.GetStateTimestamp()|p0.Unix()": "ts", "recv.StateTimestamp|p0.Unix()": "ts"}}
+		ex := g.Exec(g.EntryLoc(), locs, bd.Leaf, an.ExecOpts{})
+		got := an.Tri(an.U)
+		n := 0
+		for i, r := range rets {
+			if ex.May[i] {
+				n++
+				got = an.EvalCond(fn.Info(), r.Results[0], nil, bd.Leaf)
 			}
 		}
-		ok = inactive && strict && len(conjuncts(rets[0])) == 2
+		want := row["inactive"] == "T" && row["ts"] == "lt"
+		if n != 1 || got == an.U || (got == an.T) != want {
+			bad = append(bad, fmt.Sprintf("{%s} -> %v (%d returns reachable)", an.RowString(row), got, n))
+		}
 	}
-	c.Check(ok, "R3", "func=PartitionDesc.IsInactiveSince", fn.Pos(), "answers inactive ∧ StateTimestamp < since.Unix() (strict, whole seconds): "+detail, 1)
+	detail := ""
+	for _, r := range rets {
+		detail += fn.Canon(r.Results[0]) + "; "
+	}
+	c.Check(len(bad) == 0 && len(rets) > 0, "R3", "func=PartitionDesc.IsInactiveSince", fn.Pos(), fmt.Sprintf("answers inactive ∧ StateTimestamp < since.Unix() (strict, whole seconds) on %d rows; returns: %smismatches: %v", len(rows), detail, bad), len(rows))
 }
